@@ -94,6 +94,7 @@ type Options struct {
 	RateLimit           bool
 	ExcludeHosts        []string
 	DiscardStatus       []int
+	DisableLocalDedupe  bool // --disable-local-dedupe (a WARC writer option: identical payloads are not written as revisits)
 	Tmp                 string // scratch directory (seencheck store)
 	LocalSeencheck      bool   // real LevelDB store (slow); default: crawl HQ seencheck against an in-memory fake HQ
 	NoSeencheck         bool   // --disable-seencheck with the local queue (no store is started, as in startPipeline)
@@ -167,7 +168,7 @@ func New(opt Options, site Site) *World {
 		UseSeencheck: !opt.NoSeencheck, DisableSeencheck: opt.NoSeencheck, UserAgent: "verif", UseHQ: !opt.LocalSeencheck && !opt.NoSeencheck,
 		WARCWriteAsync:    opt.AsyncWARC,
 		ExcludeHosts:      append([]string{"archive.org", "archive-it.org"}, opt.ExcludeHosts...),
-		WARCDiscardStatus: opt.DiscardStatus,
+		WARCDiscardStatus: opt.DiscardStatus, DisableLocalDedupe: opt.DisableLocalDedupe,
 		DomainsCrawl:      opt.DomainsCrawlPatterns,
 		WARCTempDir:       w.seenDir + "/temp",
 		HTTPReadDeadline:  int(60 * time.Second),
